@@ -458,7 +458,7 @@ def c19(ctx):
               ("pair2", "MC_Pair", sub(K_PAIR, PAIRCAP=6, Alpha={0, 1}, MaxN=8 if q else 10, Ranks={0, 1}, LongLens=set(), Emit=True), PAIR_INV, 4),
               # the real cap (255): long needles with the rare byte placed on both sides of the cap
               ("pairL", "MC_Pair", sub(K_PAIR, PAIRCAP=255, Alpha={0, 1}, MaxN=0, Ranks={0, 1, 2}, LongLens={253, 254, 255, 256, 257, 300} | (set() if q else {258, 400, 600}), Emit=True), PAIR_INV, 4)]
-    ps = pp_shards(ctx)
+    ps = pp_shards(ctx, small=True)
     res = run_shards(ctx, shards + ps)
     vec, n = vec_of(ctx, res, shards, "pair.ndjson")
     pvec, pn = vec_of(ctx, res, ps, "pp.ndjson")
